@@ -978,6 +978,21 @@ def unitary_stream(ctx, nprng):
         D[:, 1] = D[:, 0]
         out.append(("duplicate-column", D))
         out.append(("rank-deficient-projector", np.diag([1.0] * (n - 1) + [0.0])))
+        if n >= 4:
+            # only the TRAILING columns are wrong (leading half / leading quarter orthonormal): a validator that
+            # looks at the leading columns only (isometry mode) must not let these through
+            T = U.copy()
+            T[:, n // 2:] = nprng.standard_normal((n, n - n // 2))
+            out.append(("trailing-half-random", T))
+            T = U.copy()
+            T[:, -1] = 2.0 * T[:, -1]
+            out.append(("last-column-doubled", T))
+            T = U.copy()
+            T[:, -1] = T[:, -2]
+            out.append(("last-column-repeated", T))
+            T = U.copy()
+            T[:, n // 2:] = 0.0
+            out.append(("trailing-half-zero", T))
         out.append(("zero", np.zeros((n, n))))
         for lab, val in (("nan", np.nan), ("inf", np.inf)):
             W = U.copy()
@@ -1512,7 +1527,9 @@ def _entry_callers(nprng_good):
         sp + "isometry.py:IsometryInitialize": [("", IsometryInitialize)],
         sp + "baa_lowrank.py:BaaLowRankInitialize": [("", BaaLowRankInitialize)],
         sp + "blackbox.py:BlackBoxInitialize": [("", BlackBoxInitialize)],
-        "qclib/unitary.py:unitary": [(d, (lambda A, d=d: unitary(A, decomposition=d))) for d in ("qsd", "csd", "qr")],
+        # isometry mode (iso > 0) goes through the SAME validation of the WHOLE matrix: variants qsd+iso1 / qsd+iso2
+        "qclib/unitary.py:unitary": [(d, (lambda A, d=d: unitary(A, decomposition=d))) for d in ("qsd", "csd", "qr")]
+        + [(f"qsd+iso{i}", (lambda A, i=i: unitary(A, decomposition="qsd", iso=i))) for i in (1, 2)],
         "qclib/isometry.py:decompose": [(s, (lambda A, s=s: decompose(A, scheme=s))) for s in ("ccd", "csd", "knill")],
         g + "ldmcu.py:Ldmcu": [("k3", lambda A: Ldmcu(A, 3)), ("k1", lambda A: Ldmcu(A, 1))],
         g + "ldmcsu.py:Ldmcsu": [("k3", lambda A: Ldmcsu(A, 3))],
